@@ -162,7 +162,7 @@ class ProgGen:
         if v.kind == "scalar":
             return v.name, v.t
         if v.kind == "array":
-            idx = self.expr(self.type_named("unsigned"), env, 1)
+            idx = self.index(env)
             self.feat("array-read")
             return "%s[(%s) %% %dU]" % (v.name, idx, v.n), v.t
         if v.kind == "ptr":
@@ -173,7 +173,7 @@ class ProgGen:
             fname, ft, bw, alen = f
             self.feat("bitfield-read" if bw else "member-read")
             if alen:
-                idx = self.expr(self.type_named("unsigned"), env, 1)
+                idx = self.index(env)
                 return "%s.%s[(%s) %% %dU]" % (v.name, fname, idx, alen), ft
             if bw:
                 # value of a bit-field: type after promotion is int/unsigned/...; treat as its declared type
@@ -181,6 +181,18 @@ class ProgGen:
                 return "((%s)%s.%s)" % (ft.name, v.name, fname), ft
             return "%s.%s" % (v.name, fname), ft
         return None, None
+
+    def index(self, env):
+        """a simple unsigned index expression (no nested array reads: keeps generation finite)"""
+        r = self.r
+        sc = [v for v in env if v.kind == "scalar" and v.t.isint]
+        if sc and r.random() < 0.7:
+            v = r.choice(sc)
+            e = "(unsigned)%s" % v.name
+            if r.random() < 0.4:
+                e = "(%s + %dU)" % (e, r.randint(1, 9))
+            return e
+        return "%dU" % r.randint(0, 12)
 
     def type_named(self, n):
         for t in self.types:
@@ -309,7 +321,7 @@ class ProgGen:
         if v.kind == "scalar":
             return v.name, v.t
         if v.kind == "array":
-            idx = self.expr(self.type_named("unsigned"), env, 1)
+            idx = self.index(env)
             self.feat("array-write")
             return "%s[(%s) %% %dU]" % (v.name, idx, v.n), v.t
         if v.kind == "ptr":
@@ -319,7 +331,7 @@ class ProgGen:
         fname, ft, bw, alen = f
         self.feat("bitfield-write" if bw else "member-write")
         if alen:
-            idx = self.expr(self.type_named("unsigned"), env, 1)
+            idx = self.index(env)
             return "%s.%s[(%s) %% %dU]" % (v.name, fname, idx, alen), ft
         return "%s.%s" % (v.name, fname), ft
 
